@@ -202,7 +202,7 @@ func FormatNumber(value float64, picture string, format DecimalFormat) (string, 
 func processPicture(picture string, format *DecimalFormat, isNegative bool) (subpictureVariables, error) {
 
 	pic1, pic2 := splitStringAtRune(picture, format.PatternSeparator)
-	if pic1 == "" {
+	if pic1 == "" || (pic2 == "" && strings.ContainsRune(picture, format.PatternSeparator)) {
 		return subpictureVariables{}, fmt.Errorf("picture string must contain 1 or 2 subpictures")
 	}
 
